@@ -24,7 +24,7 @@ reference's, and later turns must still agree.";
 fn profile() -> Profile {
     Profile {
         pure_functions: true,
-        idioms: false,
+        idioms: true,
         lists: false,
         random: false,
         shuffles: false,
@@ -210,7 +210,14 @@ pub fn run(env: &Env) -> i32 {
             let Some(b) = build_or_discard(&gc.prog, &prof, acc) else {
                 return Ok(());
             };
-            if b.prog.functions.is_empty() {
+            // (name, number of parameters); idiom programs have no AST: their pure functions
+            // are the ones named pure_*, each with one parameter
+            let fns: Vec<(String, usize)> = if !b.prog.functions.is_empty() {
+                b.prog.functions.iter().map(|f| (f.name.clone(), f.params.len())).collect()
+            } else {
+                b.meta.knots.iter().filter(|k| k.starts_with("pure_")).map(|k| (k.clone(), 1)).collect()
+            };
+            if fns.is_empty() {
                 acc.discard("no_functions");
                 return Ok(());
             }
@@ -221,12 +228,12 @@ pub fn run(env: &Env) -> i32 {
             let mut inject = vec![];
             for _ in 0..ninj {
                 let at = t.pick(ops.len() + 1);
-                let f = &b.prog.functions[t.pick(b.prog.functions.len())];
-                let args: Vec<Arg> = f.params.iter().map(|_| Arg::I(t.range(0, 9))).collect();
-                let call = HostOp::Eval { func: f.name.clone(), args };
+                let f = &fns[t.pick(fns.len())];
+                let args: Vec<Arg> = (0..f.1).map(|_| Arg::I(t.range(0, 9))).collect();
+                let call = HostOp::Eval { func: f.0.clone(), args };
                 inject.push(json!({"at": at, "call": call.to_json()}));
             }
-            let funcs: Vec<String> = b.prog.functions.iter().map(|f| f.name.clone()).collect();
+            let funcs: Vec<String> = fns.iter().map(|f| f.0.clone()).collect();
             let cfg = HostCfg {
                 handler: gc.hist.first().map(|v| v & 1 == 1).unwrap_or(false),
                 allow_fallbacks: true,
